@@ -8,6 +8,7 @@
 //         td=<ms> dflt=<0|1> pre=<none|init> second=<no|conn|rwc> pending=<0|1> conc=<0|1> slack=<buckets>
 //   ->    connect=<ok|err> res=<nil|exiterr|stdin|done|unresp|waited2|hang|other> eb=<n> death=<e0|en|st|sk|so|nr>
 //         term=<tno|tneg|t<k>> eof=<0|1> gone=<0|1> leak=<0|1> second=<na|same|diff|stdin|nil|hang|other> pend=<na|ok|err|hang>
+//   connecterr kind=<nostart|stdout|stdin>  ->  err=<0|1> started=<0|1> leak=<0|1>
 //   srvrun via=<io> end=<eof|cancel|both> pre=<none|init>  ->  ret=<nil|err|canceled|hang> sessions=<n> leak=<0|1>
 // Time appears only as BUCKETS in units of the case's TerminateDuration: eb = floor(elapsed of Close / TD),
 // t<k> = floor((instant the child saw SIGTERM - instant Close was called) / TD).  The monitor judges lower
@@ -664,6 +665,43 @@ func verifRunSrvCase(c verifSrvCase) (obs string, tags []string) {
 	return fmt.Sprintf("ret=%s sessions=%d leak=%s", r, n, leak), []string{"srvrun", "end-" + c.end, "ret-" + r}
 }
 
+// ---------------------------------------------------------------- Connect failing
+
+func verifRunConnErr(kind string) (obs string, tags []string) {
+	defer func() {
+		if r := recover(); r != nil {
+			obs, tags = "panic", append(tags, "panic")
+		}
+	}()
+	var cmd *exec.Cmd
+	switch kind {
+	case "nostart":
+		cmd = exec.Command("/nonexistent/verif-no-such-binary")
+	case "stdout":
+		cmd = exec.Command(os.Args[0], "-test.run=^$")
+		cmd.Stdout = io.Discard // StdoutPipe fails: Stdout already set
+	default: // stdin
+		cmd = exec.Command(os.Args[0], "-test.run=^$")
+		cmd.Stdin = strings.NewReader("") // StdinPipe fails: Stdin already set
+	}
+	conn, err := (&CommandTransport{Command: cmd, TerminateDuration: 200 * time.Millisecond}).Connect(context.Background())
+	e, started := "0", "0"
+	if err != nil {
+		e = "1"
+	} else if conn != nil {
+		conn.Close()
+	}
+	if cmd.Process != nil {
+		started = "1"
+		cmd.Process.Kill()
+	}
+	leak := "0"
+	if ok, _ := verifNoLeak(verifCmdSlack); !ok {
+		leak = "1"
+	}
+	return fmt.Sprintf("err=%s started=%s leak=%s", e, started, leak), []string{"connecterr", "kind-" + kind}
+}
+
 // ---------------------------------------------------------------- generator
 
 func TestVerifCmdTransport(t *testing.T) {
@@ -695,6 +733,13 @@ func TestVerifCmdTransport(t *testing.T) {
 		out.line(cs, fmt.Sprintf("srvrun via=io end=%s pre=%s", c.end, c.pre), obs, tags...)
 		out.flush()
 	}
+	emitConnErr := func(i int, kind string) {
+		cs := fmt.Sprintf("e%d", i)
+		out.line(cs, "reset", "ok", "reset")
+		obs, tags := verifRunConnErr(kind)
+		out.line(cs, "connecterr kind="+kind, obs, tags...)
+		out.flush()
+	}
 	if rp := os.Getenv("VERIF_REPLAY"); rp != "" {
 		b, err := os.ReadFile(rp)
 		if err != nil {
@@ -705,6 +750,9 @@ func TestVerifCmdTransport(t *testing.T) {
 			l = strings.TrimSpace(l)
 			if c, ok := verifParseCmdCase(l); ok {
 				emitClose(i, c)
+				i++
+			} else if strings.HasPrefix(l, "connecterr") {
+				emitConnErr(i, verifKV(l, "=")["kind"])
 				i++
 			} else if strings.HasPrefix(l, "srvrun") {
 				kv := verifKV(l, "=")
@@ -776,5 +824,8 @@ func TestVerifCmdTransport(t *testing.T) {
 	srv := []verifSrvCase{{"eof", "none"}, {"eof", "init"}, {"cancel", "none"}, {"cancel", "init"}, {"both", "init"}}
 	for i, c := range srv {
 		emitSrv(i, c)
+	}
+	for i, k := range []string{"nostart", "stdout", "stdin"} {
+		emitConnErr(i, k)
 	}
 }
